@@ -309,43 +309,57 @@ pub fn check_xml(xml: &str, ep: &EnergyPerformance) -> CheckResult {
     let mag = (b.ren.abs().max(b.nren.abs())) as f64;
     ensure!(near(tot, (b.ren + b.nren) as f64, 0.1 + 8.0 * crate::tol::EPS32 * mag), "xml_value", "<Epm2><tot> = {} but C_ep,tot = {}", tot, b.ren + b.nren);
     ensure!(near(nren, b.nren as f64, 0.1 + 8.0 * crate::tol::EPS32 * mag), "xml_value", "<Epm2><nren> = {} but C_ep,nren = {}", nren, b.nren);
-    // components, in order
+    // components: every component of the result is stated by one element of its own (matched as multisets: the
+    // statement does not fix the order of the elements, only that it does not vary between runs - checked apart)
     let comps = root.child("Componentes").ok_or_else(|| Failure::new("xml_value", "no <Componentes>"))?;
     let elems: Vec<&xmlcheck::Node> = comps.children.iter().filter(|c| matches!(c.name.as_str(), "Consumo" | "Produccion" | "EAux" | "Salida")).collect();
     ensure!(elems.len() == ep.components.data.len(), "xml_components", "{} component elements for {} components", elems.len(), ep.components.data.len());
-    for (el, e) in elems.iter().zip(ep.components.data.iter()) {
+    let text_of = |el: &xmlcheck::Node, tag: &str| el.child(tag).map(|n| n.text.trim().to_string());
+    let mut taken = vec![false; elems.len()];
+    for e in ep.components.data.iter() {
         let (want_name, vals, id): (&str, &Vec<f32>, i32) = match e {
             Energy::Used(u) => ("Consumo", &u.values, u.id),
             Energy::Prod(p) => ("Produccion", &p.values, p.id),
             Energy::Aux(a) => ("EAux", &a.values, a.id),
             Energy::Out(o) => ("Salida", &o.values, o.id),
         };
-        ensure!(el.name == want_name, "xml_components", "element <{}> where a <{}> is expected", el.name, want_name);
-        let gid = el.child("Id").and_then(|n| n.text.trim().parse::<i32>().ok());
-        ensure!(gid == Some(id), "xml_components", "<Id> {:?} for component of system {}", gid, id);
-        let got = vals_of(el).ok_or_else(|| Failure::new("xml_value", format!("<{}> has no numeric <Valores>", el.name)))?;
-        ensure!(got.len() == vals.len(), "xml_value", "<Valores> has {} numbers for {} steps", got.len(), vals.len());
-        for (g, w) in got.iter().zip(vals.iter()) {
-            ensure!(near(*g, *w as f64, 0.01), "xml_value", "<Valores> entry {} but the component holds {}", g, w);
-        }
-        match e {
-            Energy::Used(u) => {
-                ensure!(el.child("Vector").map(|n| n.text.trim().to_string()) == Some(format!("{}", u.carrier)), "xml_components", "<Vector> of a consumption");
-                ensure!(el.child("Servicio").map(|n| n.text.trim().to_string()) == Some(format!("{}", u.service)), "xml_components", "<Servicio> of a consumption");
+        let tags_ok = |el: &xmlcheck::Node| -> bool {
+            match e {
+                Energy::Used(u) => text_of(el, "Vector") == Some(format!("{}", u.carrier)) && text_of(el, "Servicio") == Some(format!("{}", u.service)),
+                Energy::Prod(p) => text_of(el, "Origen") == Some(format!("{}", p.source)),
+                Energy::Aux(a) => text_of(el, "Servicio") == Some(format!("{}", a.service)),
+                Energy::Out(o) => text_of(el, "Servicio") == Some(format!("{}", o.service)),
             }
-            Energy::Prod(p) => ensure!(el.child("Origen").map(|n| n.text.trim().to_string()) == Some(format!("{}", p.source)), "xml_components", "<Origen> of a production"),
-            Energy::Aux(a) => ensure!(el.child("Servicio").map(|n| n.text.trim().to_string()) == Some(format!("{}", a.service)), "xml_components", "<Servicio> of an auxiliary"),
-            Energy::Out(o) => ensure!(el.child("Servicio").map(|n| n.text.trim().to_string()) == Some(format!("{}", o.service)), "xml_components", "<Servicio> of an output"),
+        };
+        let vals_ok = |el: &xmlcheck::Node| -> bool {
+            match vals_of(el) {
+                Some(got) => got.len() == vals.len() && got.iter().zip(vals.iter()).all(|(g, w)| near(*g, *w as f64, 0.01)),
+                None => false,
+            }
+        };
+        let same_head = |el: &xmlcheck::Node| el.name == want_name && el.child("Id").and_then(|n| n.text.trim().parse::<i32>().ok()) == Some(id) && tags_ok(el);
+        let hit = (0..elems.len()).find(|&i| !taken[i] && same_head(elems[i]) && vals_ok(elems[i]));
+        match hit {
+            Some(i) => taken[i] = true,
+            None => {
+                // say what is wrong with the nearest candidate
+                if let Some(i) = (0..elems.len()).find(|&i| !taken[i] && same_head(elems[i])) {
+                    let got = vals_of(elems[i]);
+                    fail!("xml_value", "<{}> of system {}: <Valores> {:?} but the component holds {:?}", want_name, id, got, vals);
+                }
+                fail!("xml_components", "no <{}> element with the id and tags of the component `{}`", want_name, e);
+            }
         }
     }
-    // demands
+    // demands: one element per declared demand, matched by service
     let dem: Vec<&xmlcheck::Node> = comps.children.iter().filter(|c| c.name == "Demanda").collect();
     let nd = &ep.components.needs;
     let want: Vec<(&str, &Vec<f32>)> = [("ACS", &nd.ACS), ("CAL", &nd.CAL), ("REF", &nd.REF)].iter().filter_map(|(k, v)| v.as_ref().map(|v| (*k, v))).collect();
     ensure!(dem.len() == want.len(), "xml_demand", "{} <Demanda> elements directly under <Componentes> for {} declared demands", dem.len(), want.len());
-    for (el, (k, v)) in dem.iter().zip(want.iter()) {
-        ensure!(el.child("Servicio").map(|n| n.text.trim().to_string()) == Some(k.to_string()), "xml_demand", "<Demanda> service");
-        let got = vals_of(el).ok_or_else(|| Failure::new("xml_demand", "<Demanda> has no numeric <Valores>"))?;
+    for (k, v) in want.iter() {
+        let els: Vec<&&xmlcheck::Node> = dem.iter().filter(|el| text_of(el, "Servicio") == Some(k.to_string())).collect();
+        ensure!(els.len() == 1, "xml_demand", "{} <Demanda> elements for the {} demand", els.len(), k);
+        let got = vals_of(els[0]).ok_or_else(|| Failure::new("xml_demand", "<Demanda> has no numeric <Valores>"))?;
         ensure!(got.len() == v.len(), "xml_demand", "<Demanda> has {} values for {} steps", got.len(), v.len());
         for (g, w) in got.iter().zip(v.iter()) {
             ensure!(near(*g, *w as f64, 0.01), "xml_value", "<Demanda> value {} but the demand holds {}", g, w);
@@ -355,15 +369,18 @@ pub fn check_xml(xml: &str, ep: &EnergyPerformance) -> CheckResult {
     let fs = root.child("FactoresDePaso").ok_or_else(|| Failure::new("xml_value", "no <FactoresDePaso>"))?;
     let fel: Vec<&xmlcheck::Node> = fs.children.iter().filter(|c| c.name == "Factor").collect();
     ensure!(fel.len() == ep.wfactors.wdata.len(), "xml_factors", "{} <Factor> elements for {} factors", fel.len(), ep.wfactors.wdata.len());
-    for (el, f) in fel.iter().zip(ep.wfactors.wdata.iter()) {
+    let mut ftaken = vec![false; fel.len()];
+    for f in ep.wfactors.wdata.iter() {
+        let key_ok = |el: &xmlcheck::Node| {
+            text_of(el, "Vector") == Some(format!("{}", f.carrier)) && text_of(el, "Origen") == Some(format!("{}", f.source)) && text_of(el, "Destino") == Some(format!("{}", f.dest)) && text_of(el, "Paso") == Some(format!("{}", f.step))
+        };
+        let i = (0..fel.len()).find(|&i| !ftaken[i] && key_ok(fel[i])).ok_or_else(|| Failure::new("xml_factors", format!("no <Factor> element for `{}`", f)))?;
+        ftaken[i] = true;
+        let el = fel[i];
         for (tag, w) in [("ren", f.ren), ("nren", f.nren), ("co2", f.co2)] {
             let g = el.child(tag).and_then(|n| n.text.trim().parse::<f64>().ok()).ok_or_else(|| Failure::new("xml_factors", format!("<Factor> without numeric <{}>", tag)))?;
             ensure!(near(g, w as f64, 0.001), "xml_value", "<Factor><{}> = {} but the factor is {}", tag, g, w);
         }
-        ensure!(el.child("Vector").map(|n| n.text.trim().to_string()) == Some(format!("{}", f.carrier)), "xml_factors", "<Vector> of a factor");
-        ensure!(el.child("Origen").map(|n| n.text.trim().to_string()) == Some(format!("{}", f.source)), "xml_factors", "<Origen> of a factor");
-        ensure!(el.child("Destino").map(|n| n.text.trim().to_string()) == Some(format!("{}", f.dest)), "xml_factors", "<Destino> of a factor");
-        ensure!(el.child("Paso").map(|n| n.text.trim().to_string()) == Some(format!("{}", f.step)), "xml_factors", "<Paso> of a factor");
     }
     let nmeta = comps.children.iter().filter(|c| c.name == "Metadato").count() + fs.children.iter().filter(|c| c.name == "Metadato").count();
     ensure!(nmeta == ep.components.meta.len() + ep.wfactors.wmeta.len(), "xml_meta", "{} <Metadato> elements for {} metadata", nmeta, ep.components.meta.len() + ep.wfactors.wmeta.len());
@@ -473,6 +490,7 @@ impl Prop for C17 {
     }
     fn check(c: &Case, ctx: &mut Ctx) -> CheckResult {
         let e = effective(c);
+        crate::common::label_long(ctx, &e.b);
         let inp = inputs(&e.b, &e.f)?;
         let ep = eval_sound(&inp.comps, &inp.factors, e.k, e.area, e.lm)?;
         let ep = cte::incorpora_demanda_renovable_acs_nrb(ep);
